@@ -20,6 +20,11 @@ map() { # subject -> checks
     *"self-referential"*|*"max_instr = 0"*|*"declaring a local"*|*"wrap around"*) echo C04 ;;
     *"function values compare equal"*) echo "C04" ;;
     *"dynamic call like"*|*"repeat count"*|*"first trace entry"*) echo C15 ;;
+    *"iterate over a private copy"*) echo C04 ;;
+    *"insert_value keeps"*) echo C02 ;;
+    *"CloseUpvalue pops"*|*"open upvalues nobody uses"*) echo C05 ;;
+    *"failed run_function"*|*"typed native wrappers consume"*) echo C18 ;;
+    *"upvalue list holds"*|*"climbs above the root"*) echo C04 ;;
     *) echo "" ;;
   esac
 }
@@ -33,13 +38,19 @@ git log --reverse --format='%h %s' | grep ' fix: ' | while read -r h subj; do
   fi
   git show "$h" -- cao-lang/src | git apply -R
   res=""
+  # evidence / replays of these runs go to a scratch root, not into /verif
+  TMPR=$(mktemp -d); cp "$ROOT/known_findings.jsonl" "$TMPR/"
+  ( cd "$ROOT/sim" && cargo build --release --offline -q 2>/dev/null )
   for c in $checks; do
-    "$ROOT/check" "$c" --tier quick >/tmp/revsens.$$.log 2>&1; rc=$?
-    nv=$(grep -c '^VIOLATION' /tmp/revsens.$$.log)
+    VERIF_ROOT="$TMPR" "$ROOT/sim/target/release/caosim" check "$c" --tier quick >"$TMPR/log" 2>&1; rc=$?
+    nv=$(grep -c '^VIOLATION' "$TMPR/log")
     res="$res $c:exit=$rc,violations=$nv"
   done
+  rm -rf "$TMPR"
   git checkout -q -- .
   echo "$h$res :: $subj"
 done
-rm -f /tmp/revsens.$$.log
-} | tee "$OUT"
+} > "$OUT.tmp"
+mv "$OUT.tmp" "$OUT"
+( cd "$ROOT/sim" && cargo build --release --offline -q 2>/dev/null )
+cat "$OUT"
